@@ -175,6 +175,7 @@ func checkC01Rest(c *core.Ctx) {
 		nilPathScan(c, r18, core.SortedFns(set))
 	}
 	passThroughCycles(c, c.Rule("R1.9", "D", "a layer that passes its whole input on as payload never names a layer type as next that it decodes itself"))
+	loopProgress(c, c.Rule("R1.10", "D", "decode loops advance (= R19.3): a loop whose step can be 0 never returns, which no recovery can end"))
 	r15 := c.Rule("R1.5", "D", "renderers are total on what decoders publish: no unguarded dereference of a pointer field decoders may leave nil")
 	unset := nilDerefScan(c, r15)
 
